@@ -665,6 +665,20 @@ func (w *World) accessesOf(f *types.Var) []fieldAccess {
 						case ssa.CallInstruction:
 							// the field's address is passed to a call: a write unless the callee is a module function that only reads through that parameter
 							out = append(out, fieldAccess{fn, r, f, addrArgMayBeWritten(w, u, x), base})
+						case *ssa.Phi:
+							// the field's address is one of several a pointer may hold: what is done through the pointer
+							wr := false
+							if u.Referrers() != nil {
+								for _, pr := range *u.Referrers() {
+									if st, isSt := pr.(*ssa.Store); isSt && st.Addr == ssa.Value(u) {
+										wr = true
+										out = append(out, fieldAccess{fn, st, f, true, base})
+									} else if ld, isLd := pr.(*ssa.UnOp); isLd && ld.Op == token.MUL {
+										out = append(out, fieldAccess{fn, ld, f, false, base})
+									}
+								}
+							}
+							_ = wr
 						case *ssa.FieldAddr:
 							// nested struct field: the inner field is analysed on its own; for the outer field this is a read
 							out = append(out, fieldAccess{fn, r, f, false, base})
